@@ -1,6 +1,7 @@
-from plasTeX.Base.LaTeX.Quotations import verse
+from plasTeX.Base.LaTeX import Quotations
 
-verse.args = '[ width:nox ]'
+class verse(Quotations.verse):
+    args = '[ width:nox ]'
 
 class altverse(verse):
     pass
